@@ -6,10 +6,10 @@ import re
 
 from ..engine import rule
 from ..cxx_ir import CALL_KINDS, CTOR_KINDS
-from ..cfg import cfg_of
+from ..cfg import cfg_of, const_eval
 from ..effects import PY, RC_FAIL, external_effects
 from .common import (short, inst, live_funcs, calls_in, callee_func, member_path, enclosing_map,
-                     ancestors, thrown_type)
+                     ancestors, thrown_type, relation)
 from .locks import regions
 
 REG_MAPS = ('m_registrations', 'm_named_registrations')
@@ -262,14 +262,15 @@ def k6(ctx):
                   'registration shadows the namespace one' % inst(f), named[0].loc)
         # named lookup only when namespace non-empty
         guards = [cn for cn in cfg.nodes if cn.kind == 'cond' and cn.ast is not None and
-                  cn.ast.kind == 'CXXMemberCallExpr' and cn.ast.callee_name() == 'empty' and
-                  'namespace' in (member_path(cn.ast.call_base()) or '')]
+                  _ns_empty_test(cn.ast) is not None]
+        # the edge on which the namespace is empty / non-empty, however the test is spelt
+        e_lab = (_ns_empty_test(guards[0].ast)[0] > 0) if guards else True
         okg = bool(guards) and cfg.dominates(guards[0].idx, nn) and \
-            nn not in cfg.forward_reachable([w for (w, lab) in cfg.succ[guards[0].idx] if lab is True])
+            nn not in cfg.forward_reachable([w for (w, lab) in cfg.succ[guards[0].idx] if lab is e_lab])
         # ... and for *every* non-empty namespace: from the non-empty edge each path to a return
         # passes the namespace-map lookup (no extra condition may skip it)
         if guards:
-            ne = [w for (w, lab) in cfg.succ[guards[0].idx] if lab is False]
+            ne = [w for (w, lab) in cfg.succ[guards[0].idx] if lab is (not e_lab)]
             skipped = cfg.exit.idx in cfg.reachable_from(ne, None, {nn})
             ctx.check('Lookup/named-always-with-namespace', not skipped,
                       '%s: with a non-empty namespace the namespace map is always consulted' % inst(f),
@@ -339,11 +340,36 @@ def _ns_empty_test(e):
     while e is not None and e.kind == 'UnaryOperator' and e.op == '!' and e.kids:
         sign = -sign
         e = e.kids[0]
-    if e is not None and e.kind == 'CXXMemberCallExpr' and e.callee_name() == 'empty':
-        b = e.call_base()
+    def ns_param(b):
         if b is not None and b.kind == 'DeclRefExpr' and (b.ref or {}).get('kind') == 'ParmVarDecl' and \
                 'string' in (b.type or ''):
-            return sign, (b.ref or {}).get('name')
+            return (b.ref or {}).get('name')
+        return None
+
+    def size_of(x):
+        if x is not None and x.kind == 'CXXMemberCallExpr' and x.callee_name() in ('size', 'length'):
+            return ns_param(x.call_base())
+        return None
+    if e is None:
+        return None
+    if e.kind == 'CXXMemberCallExpr' and e.callee_name() == 'empty':
+        n = ns_param(e.call_base())
+        return (sign, n) if n else None
+    # the same test spelt through the length: size() == 0, size() != 0, size() > 0, 0 < size()
+    if e.kind == 'BinaryOperator' and e.op in ('==', '!=') and len(e.kids) == 2 and const_eval(e.kids[1]) == 0:
+        n = size_of(e.kids[0])
+        return ((sign if e.op == '==' else -sign), n) if n else None
+    rel = relation(e)
+    if rel is not None:
+        small, big, strict = rel
+        if const_eval(small) == 0 and strict and size_of(big):
+            return -sign, size_of(big)          # 0 < size(): non-empty
+        if const_eval(big) == 0 and not strict and size_of(small):
+            return sign, size_of(small)         # size() <= 0: empty
+        if const_eval(small) == 1 and not strict and size_of(big):
+            return -sign, size_of(big)          # 1 <= size()
+        if const_eval(big) == 1 and strict and size_of(small):
+            return sign, size_of(small)         # size() < 1
     return None
 
 
